@@ -343,6 +343,20 @@ func C07Neg(w *sim.World, in *Info, invs []*Invalidation) (vs []V) {
 		if inv.Exch >= ex.ID || in.Mb.Exch >= inv.Exch {
 			continue
 		}
+		// "stored earlier": a background reply that was still in flight when the
+		// unsafe request was made arrived - and was stored - after it; the
+		// statement is about what had been stored before
+		if in.Mb.Background {
+			if invEx := w.Exchange(inv.Exch); invEx != nil {
+				mbEx := w.Exchange(in.Mb.Exch)
+				if mbEx == nil {
+					continue
+				}
+				if done, _, _ := mbEx.Finished(in.Mb); !done || in.Mb.Exit.After(invEx.TCall) {
+					continue
+				}
+			}
+		}
 		// was the body's entry refreshed (200) after the invalidation? Mb is the body message, so no.
 		if oracle.CompareURI(cur, inv.Target) == oracle.Equivalent {
 			vs = append(vs, V{"C07", "target-survived", "method=" + methodClass(inv.Method), fmt.Sprintf("response stored in exchange %d survived the %s %d of exchange %d for the same target and was returned unvalidated; %s", in.Mb.Exch, inv.Method, inv.Status, inv.Exch, ex.Summary())})
